@@ -797,7 +797,7 @@ impl Check for C14 {
         "C14"
     }
     fn workloads(&mut self, tier: Tier, _seed: u64) -> Vec<(String, u64)> {
-        let k = if tier == Tier::Quick { 1 } else { 20 };
+        let k = if tier == Tier::Quick { 8 } else { 80 };
         vec![("corpus".into(), docs::corpus().len() as u64), ("render".into(), 100_000 * k), ("render-mut".into(), 30_000 * k), ("corpus-mut".into(), 30_000 * k)]
     }
     fn run(&mut self, ctx: &mut Ctx, workload: &str, index: u64, rng: &mut Rng) {
